@@ -779,6 +779,224 @@ def r18_4(prog, rep, table, rid='R18.4'):
 
 
 # ------------------------------------------------------------------------------
+# R18.5   _parse_nodefile: one entry per distinct node name
+#
+KEYED_CTORS = {'dict', 'set', 'frozenset', 'Counter', 'collections.Counter',
+               'defaultdict', 'collections.defaultdict', 'OrderedDict',
+               'collections.OrderedDict', 'dict.fromkeys',
+               'OrderedDict.fromkeys', 'collections.OrderedDict.fromkeys'}
+PASS_THROUGH = {'sorted', 'list', 'tuple', 'reversed', 'enumerate', 'iter'}
+LINE_SPLIT   = {'readlines', 'splitlines', 'split'}
+DICT_VIEWS   = {'items', 'keys', 'values', 'most_common'}
+
+
+class Unrecognised(Exception):
+    pass
+
+
+class Uniq:
+    """classifies the expression a list of node tuples is drawn from:
+      'keyed'    a collection keyed / deduplicated by its elements (dict,
+                 Counter, set, dict.fromkeys, groupby over a sorted sequence,
+                 or a list filled once per element of such a collection)
+      'perline'  one element per line of the file (duplicates kept)
+      'adjacent' itertools.groupby over an unsorted per-line sequence: only
+                 adjacent equal lines are merged
+    """
+
+    def __init__(self, f):
+        self.f = f
+        self.g = cfg_of(f)
+        self.smap = I.stmt_node_map(self.g)
+        self.handles = set()
+        for n in walk(f.node, nested=True):
+            if isinstance(n, ast.With):
+                for i in n.items:
+                    if isinstance(i.optional_vars, ast.Name):
+                        self.handles.add(i.optional_vars.id)
+        self.busy = set()
+
+    def sorted_seq(self, e, at):
+        if isinstance(e, ast.Call) and call_name(e) == 'sorted':
+            return True
+        if isinstance(e, ast.Name):
+            defs = self.defs(e.id)
+            if defs and all(isinstance(v, ast.Call) and
+                            call_name(v) == 'sorted' for v in defs):
+                return True
+            sorts = [self.smap[id(c)].id for c in calls_in(self.f.node)
+                     if call_name(c) == e.id + '.sort' and id(c) in self.smap]
+            node = self.smap.get(id(at))
+            if sorts and node is not None and \
+                    must_pass(self.g, self.g.entry.id, node.id, sorts):
+                return True
+        return False
+
+    def defs(self, name):
+        out = []
+        for n in walk(self.f.node, nested=True):
+            if isinstance(n, ast.Assign) and any(
+                    isinstance(t, ast.Name) and t.id == name
+                    for t in n.targets):
+                out.append(n.value)
+            elif isinstance(n, ast.AnnAssign) and n.value is not None and \
+                    isinstance(n.target, ast.Name) and n.target.id == name:
+                out.append(n.value)
+        return out
+
+    @staticmethod
+    def join(kinds):
+        kinds = set(kinds)
+        for k in ('adjacent', 'perline', 'keyed'):
+            if k in kinds:
+                return k
+        raise Unrecognised('nothing to classify')
+
+    def enclosing_loop(self, call):
+        """innermost For whose body contains `call`"""
+        best = None
+        for n in walk(self.f.node, nested=True):
+            if isinstance(n, ast.For) and any(x is call for s in n.body
+                                              for x in walk(s, nested=True)):
+                if best is None or any(x is n for x in walk(best,
+                                                            nested=True)):
+                    best = n
+        return best
+
+    def classify(self, e):
+        if isinstance(e, (ast.Dict, ast.DictComp, ast.SetComp, ast.Set)):
+            return 'keyed'
+        if isinstance(e, (ast.ListComp, ast.GeneratorExp)):
+            if len(e.generators) != 1:
+                raise Unrecognised(short(e))
+            return self.classify(e.generators[0].iter)
+        if isinstance(e, ast.Call):
+            cn = call_name(e)
+            base = cn.split('.')[-1]
+            if base == 'groupby' and e.args:
+                if kwarg(e, 'key', 1) is not None:
+                    raise Unrecognised('groupby with a key function: %s'
+                                       % short(e))
+                s = e.args[0]
+                if self.sorted_seq(s, e):
+                    return 'keyed'
+                k = self.classify(s)
+                return 'keyed' if k == 'keyed' else 'adjacent'
+            if cn in KEYED_CTORS:
+                return 'keyed'
+            if cn in PASS_THROUGH and e.args:
+                return self.classify(e.args[0])
+            if isinstance(e.func, ast.Attribute):
+                if e.func.attr in DICT_VIEWS:
+                    return self.classify(e.func.value)
+                if e.func.attr in LINE_SPLIT:
+                    return 'perline'
+            raise Unrecognised(short(e))
+        if isinstance(e, ast.Name):
+            if e.id in self.handles:
+                return 'perline'
+            if e.id in self.busy:
+                raise Unrecognised('recursive definition of %s' % e.id)
+            self.busy.add(e.id)
+            try:
+                defs = self.defs(e.id)
+                if not defs:
+                    raise Unrecognised('%s has no definition' % e.id)
+                kinds = []
+                grows = False
+                for v in defs:
+                    empty_list = isinstance(v, ast.List) and not v.elts or \
+                        isinstance(v, ast.Call) and call_name(v) == 'list' \
+                        and not v.args
+                    if empty_list:
+                        grows = True
+                        continue
+                    kinds.append(self.classify(v))
+                if grows:
+                    fed = False
+                    for c in calls_in(self.f.node, nested=True):
+                        if not isinstance(c.func, ast.Attribute) or \
+                                unparse(c.func.value) != e.id:
+                            continue
+                        if c.func.attr in ('append', 'insert'):
+                            loop = self.enclosing_loop(c)
+                            if loop is None:
+                                raise Unrecognised('%s outside of a loop'
+                                                   % short(c))
+                            kinds.append(self.classify(loop.iter))
+                            fed = True
+                        elif c.func.attr == 'extend' and c.args:
+                            kinds.append(self.classify(c.args[0]))
+                            fed = True
+                    for n in walk(self.f.node, nested=True):
+                        if isinstance(n, ast.AugAssign) and \
+                                isinstance(n.target, ast.Name) and \
+                                n.target.id == e.id:
+                            kinds.append(self.classify(n.value))
+                            fed = True
+                    if not fed:
+                        raise Unrecognised('list %s is never filled' % e.id)
+                return self.join(kinds)
+            finally:
+                self.busy.discard(e.id)
+        if isinstance(e, ast.Subscript) and isinstance(e.slice, ast.Slice):
+            return self.classify(e.value)
+        raise Unrecognised(short(e))
+
+
+def r18_5(prog, rep, table, rid='R18.5'):
+    rep.rule(rid, '_parse_nodefile returns one tuple per distinct node name: '
+             'the returned list is drawn from a collection keyed by the line '
+             '(dict / Counter / set / groupby over a sorted sequence), not '
+             'from the lines themselves', minimum=1)
+    base = prog.cls(*RM)
+    funcs = {}
+    for K in [base] + sorted(table.values(), key=lambda k: k.where):
+        f = prog.find_method(K, '_parse_nodefile')
+        if f is not None:
+            funcs[f.where] = f
+    if not funcs:
+        raise AnalysisError('anchor ResourceManager._parse_nodefile not found')
+    for where, f in sorted(funcs.items()):
+        rep.saw(f)
+        u = Uniq(f)
+        n = 0
+        for r in walk(f.node):
+            if not isinstance(r, ast.Return) or r.value is None:
+                continue
+            v = r.value
+            if isinstance(v, (ast.List, ast.Tuple)) and not v.elts or \
+                    isinstance(v, ast.Constant) and v.value is None:
+                continue                       # "file not parsable"
+            n += 1
+            try:
+                kind = u.classify(v)
+            except Unrecognised as e:
+                raise AnalysisError('UNRECOGNISED-IDIOM %s: cannot tell how '
+                                    '`%s` is drawn from the node file (%s)'
+                                    % (f.where, short(v), e))
+            rep.check(kind == 'keyed', rid, f, '`%s` is drawn from a '
+                      'collection keyed by node name' % short(v, 60),
+                      construct='unique:%s' % kind,
+                      message='%s builds the list it returns %s: a host whose '
+                      'lines are not adjacent in the node file yields several '
+                      'entries (each with a too small slot count), so the '
+                      'pilot offers the same node more than once'
+                      % (f.qual, 'with itertools.groupby over the unsorted '
+                         'lines, which merges only adjacent equal lines'
+                         if kind == 'adjacent' else 'with one element per '
+                         'line of the file, without merging repeated host '
+                         'names'), loc=f.loc(r),
+                      history='round-robin node file n1 n2 n3 n1 n2 n3 (one '
+                      'name per line): 6 one-slot entries with duplicate '
+                      'names instead of [(n1, 2), (n2, 2), (n3, 2)]; Torque '
+                      'detects cores_per_node=1 and lists every host twice')
+        if not n:
+            raise AnalysisError('UNRECOGNISED-IDIOM %s returns no list'
+                                % f.where)
+
+
+# ------------------------------------------------------------------------------
 #
 def run(prog, rep, tier):
     rep.decided = ('every resource manager of the factory table obtains '
@@ -789,9 +1007,11 @@ def run(prog, rep, tier):
         '[:requested_nodes] whenever the list is longer, moves agent/service '
         'nodes out by pop() and raises on an empty list after the last '
         'change; the registry receives the filtered RMInfo and instances '
-        'initialised from the registry do not filter again.')
-    rep.undecided = ('node-file parsing for arbitrary file contents '
-        '(_parse_nodefile, LSF login/batch filtering, PBSPro vnodes); that '
+        'initialised from the registry do not filter again; _parse_nodefile '
+        'draws its result from a collection keyed by node name (one entry '
+        'per distinct host whatever the order of the lines).')
+    rep.undecided = ('slot counting and name syntax of node files for '
+        'arbitrary contents (LSF login/batch filtering, PBSPro vnodes); that '
         'the batch system allocated requested+backup nodes; blocked cores '
         '(decided under C01 R01.7).')
     rep.assumptions = [
@@ -808,6 +1028,7 @@ def run(prog, rep, tier):
     r18_2(prog, rep, builders)
     r18_3(prog, rep)
     r18_4(prog, rep, table)
+    r18_5(prog, rep, table)
     if tier == 'thorough':
         # sweep: any other class in the package deriving from ResourceManager
         # (not in the table) obeys R18.1 as well
@@ -828,6 +1049,25 @@ _CUT = "            rm_info.node_list   = rm_info.node_list[:rm_info.requested_n
 _EMPTY = ("        # check if we can do any work\n"
           "        if not rm_info.node_list:\n"
           "            raise RuntimeError('ResourceManager has no nodes left to run tasks')\n")
+
+_IMP  = "import math\nimport os\n"
+_PNF  = ("            nodes = dict()\n"
+         "            with ru.ru_open(fname, 'r') as fin:\n"
+         "                for line in fin.readlines():\n"
+         "                    node = line.strip()\n"
+         "                    assert ' ' not in node\n"
+         "                    if node in nodes: nodes[node] += 1\n"
+         "                    else            : nodes[node]  = 1\n"
+         "\n"
+         "            if cpn:\n"
+         "                for node in list(nodes.keys()):\n"
+         "                    nodes[node] = cpn\n"
+         "\n"
+         "            # convert node dict into tuple list\n"
+         "            return [(node, cpn * smt) for node, cpn in nodes.items()]\n")
+_READ = ("            with ru.ru_open(fname, 'r') as fin:\n"
+         "                lines = [line.strip() for line in fin]\n\n")
+
 
 MUTATIONS = [
     dict(name='R18.1 Debug RM builds the list by hand, all indices 0', rules=('R18.1',), edits=[
@@ -906,6 +1146,42 @@ MUTATIONS = [
         (_B, "            reg.put('rm.%s' % self.name.lower(), rm_info.as_dict())\n\n        reg.close()\n        self._set_info(rm_info)\n", "            reg.put('rm.%s' % self.name.lower(), rm_info.as_dict())\n            self._set_info(rm_info)\n\n        reg.close()\n")]),
     dict(name='R18.4 RM list rebuilt after filtering', rules=('R18.4',), edits=[
         (_B, "        # add launch method information to rm_info\n", "        rm_info = self.init_from_scratch(rm_info)\n        # add launch method information to rm_info\n")]),
+    dict(name='R18.5 slots counted per adjacent block with groupby (seed C18-b)', rules=('R18.5',), edits=[
+        (_B, _IMP, "import itertools\n" + _IMP),
+        (_B, _PNF, _READ +
+         "            # all slots of a node are listed in one block: count block sizes\n"
+         "            nodes = list()\n"
+         "            for node, slots in itertools.groupby(lines):\n"
+         "                assert ' ' not in node\n"
+         "                nodes.append((node, cpn or len(list(slots))))\n\n"
+         "            return [(node, slots * smt) for node, slots in nodes]\n")]),
+    dict(name='R18.5 groupby over the raw lines inside the returned comprehension', rules=('R18.5',), edits=[
+        (_B, _IMP, "import itertools\n" + _IMP),
+        (_B, _PNF, _READ +
+         "            return [(node, (cpn or len(list(grp))) * smt)\n"
+         "                    for node, grp in itertools.groupby(lines)]\n")]),
+    dict(name='R18.5 one tuple per line when cpn is given', rules=('R18.5',), edits=[
+        (_B, _PNF, _READ +
+         "            if cpn:\n"
+         "                # one line per node: every line is a node\n"
+         "                return [(node, cpn * smt) for node in lines]\n\n"
+         "            nodes = dict()\n"
+         "            for node in lines:\n"
+         "                nodes[node] = nodes.get(node, 0) + 1\n"
+         "            return [(node, cnt * smt) for node, cnt in nodes.items()]\n")]),
+    dict(name='R18.5 counts kept in a dict but the result follows the lines', rules=('R18.5',), edits=[
+        (_B, "            return [(node, cpn * smt) for node, cpn in nodes.items()]\n",
+             "            return [(line.strip(), nodes[line.strip()] * smt)\n"
+             "                    for line in ru.ru_open(fname, 'r').readlines()]\n")]),
+    dict(name='R18.5 groupby after sorting a different list', rules=('R18.5',), edits=[
+        (_B, _IMP, "import itertools\n" + _IMP),
+        (_B, _PNF, _READ +
+         "            names = sorted(set(lines))\n"
+         "            self._log.debug('hosts: %s', names)\n"
+         "            nodes = list()\n"
+         "            for node, slots in itertools.groupby(lines):\n"
+         "                nodes.append((node, cpn or len(list(slots))))\n\n"
+         "            return [(node, slots * smt) for node, slots in nodes]\n")]),
 ]
 
 SILENT = [
@@ -938,4 +1214,37 @@ SILENT = [
              "        if from_registry:\n            self._log.debug('RM init from registry')\n            rm_info = RMInfo(rm_info)\n            rm_info.verify()\n\n        if not from_registry:\n")]),
     dict(name='verification before the registry write dropped to _set_info', edits=[
         (_B, "            rm_info = self._init_from_scratch()\n            rm_info.verify()\n", "            rm_info = self._init_from_scratch()\n")]),
+    dict(name='slots counted with collections.Counter', edits=[
+        (_B, _IMP, "import collections\n" + _IMP),
+        (_B, _PNF, _READ +
+         "            nodes = collections.Counter(lines)\n"
+         "            if cpn:\n"
+         "                for node in list(nodes.keys()):\n"
+         "                    nodes[node] = cpn\n\n"
+         "            return [(node, cpn * smt) for node, cpn in nodes.items()]\n")]),
+    dict(name='lines sorted before groupby', edits=[
+        (_B, _IMP, "import itertools\n" + _IMP),
+        (_B, _PNF, _READ +
+         "            nodes = list()\n"
+         "            for node, slots in itertools.groupby(sorted(lines)):\n"
+         "                assert ' ' not in node\n"
+         "                nodes.append((node, cpn or len(list(slots))))\n\n"
+         "            return [(node, slots * smt) for node, slots in nodes]\n")]),
+    dict(name='lines sorted in place before groupby', edits=[
+        (_B, _IMP, "import itertools\n" + _IMP),
+        (_B, _PNF, _READ +
+         "            lines.sort()\n"
+         "            return [(node, (cpn or len(list(grp))) * smt)\n"
+         "                    for node, grp in itertools.groupby(lines)]\n")]),
+    dict(name='one line per node: dict.fromkeys with cpn, else a count', edits=[
+        (_B, _PNF, _READ +
+         "            if cpn:\n"
+         "                nodes = dict.fromkeys(lines, cpn)\n"
+         "            else:\n"
+         "                nodes = {node: lines.count(node) for node in lines}\n\n"
+         "            return [(node, cnt * smt) for node, cnt in nodes.items()]\n")]),
+    dict(name='dict counting with get(), result list built by a loop', edits=[
+        (_B, "                    if node in nodes: nodes[node] += 1\n                    else            : nodes[node]  = 1\n", "                    nodes[node] = nodes.get(node, 0) + 1\n"),
+        (_B, "            return [(node, cpn * smt) for node, cpn in nodes.items()]\n",
+             "            result = list()\n            for node, cnt in nodes.items():\n                result.append((node, cnt * smt))\n            return result\n")]),
 ]
